@@ -458,6 +458,74 @@ static void mode_targets(vf::Ctx& c)
 	if (c.want_sample()) c.sample(c.curdesc());
 }
 
+// several connections delivering large bodies to the same server object at once (each on its own socketpair and handler
+// thread, as the concurrent server runs them): every body reaches the application as sent
+struct BodySrv : public HttpServer
+{
+	std::mutex mu;
+	std::map<std::string, std::string> verdict;   // path -> "" (body as expected) or what was wrong
+	BodySrv() : HttpServer(-1) {}
+	void serve(HttpRequest& req, HttpResponse& res)
+	{
+		std::string path(*req.path(), req.path().length());
+		int t = 0, i = 0, len = 0;
+		std::string v;
+		if (sscanf(path.c_str(), "/t%d/%d/%d", &t, &i, &len) != 3) v = "unparseable path";
+		else {
+			const byte* b = req.body().data();
+			int n = req.body().length();
+			if (n != len) v = vf::fmt("%d body bytes, %d sent", n, len);
+			else for (int k = 0; k < n; k++) if (b[k] != (byte)('A' + t + (k % 251 == 250 ? i : 0))) { v = vf::fmt("byte %d is 0x%02x, sent 0x%02x", k, b[k], (byte)('A' + t + (k % 251 == 250 ? i : 0))); break; }
+		}
+		{ std::lock_guard<std::mutex> l(mu); verdict[path] = v; }
+		res.put("ok");
+	}
+	void handle(int fd) { static_cast<SocketServer&>(*this).serve(Socket(fd)); }
+};
+
+static void mode_bodies_mt(vf::Ctx& c)
+{
+	int T = c.rng.range(2, 6), per = c.rng.range(2, 5);
+	BodySrv srv;
+	std::vector<std::vector<int> > lens(T);
+	for (int t = 0; t < T; t++) for (int i = 0; i < per; i++) lens[t].push_back(c.rng.chance(0.3) ? c.rng.range(1, 2000) : c.rng.range(100000, 600000));
+	c.desc(vf::fmt("%d connections at once, %d pipelined POSTs each with bodies of up to 600 KB, one server object", T, per));
+	std::vector<std::thread> th;
+	std::atomic<int> failedSetup(0);
+	for (int t = 0; t < T; t++)
+		th.emplace_back([&, t]() {
+			int sv[2];
+			if (socketpair(AF_UNIX, SOCK_STREAM, 0, sv) != 0) { failedSetup++; return; }
+			std::thread h([&]() { srv.handle(sv[0]); });
+			std::thread rd([&]() { char buf[65536]; for (;;) { ssize_t n = read(sv[1], buf, sizeof buf); if (n <= 0) break; } });
+			for (int i = 0; i < per; i++) {
+				int len = lens[t][i];
+				std::string body((size_t)len, (char)('A' + t));
+				for (int k = 250; k < len; k += 251) body[k] = (char)('A' + t + i);
+				std::string req = vf::fmt("POST /t%d/%d/%d HTTP/1.1\r\nHost: h\r\nContent-Length: %d\r\n%s\r\n", t, i, len, len, i + 1 == per ? "Connection: close\r\n" : "") + body;
+				size_t off = 0;
+				while (off < req.size()) { ssize_t n = send(sv[1], req.data() + off, std::min(req.size() - off, (size_t)32768), MSG_NOSIGNAL); if (n <= 0) break; off += n; }
+			}
+			shutdown(sv[1], SHUT_WR);
+			h.join();
+			rd.join();
+			close(sv[1]);
+		});
+	for (auto& x : th) x.join();
+	if (failedSetup) { c.inconclusive("socketpair"); return; }
+	int seen = 0;
+	for (int t = 0; t < T; t++) for (int i = 0; i < per; i++) {
+		std::string path = vf::fmt("/t%d/%d/%d", t, i, lens[t][i]);
+		auto it = srv.verdict.find(path);
+		if (it == srv.verdict.end()) { c.fail("bodies-mt.request-not-dispatched", path); continue; }
+		seen++;
+		if (it->second.size()) c.fail("bodies-mt.body-differs", path + ": " + it->second);
+	}
+	c.evals(seen);
+	c.distinct(vf::mix(c.rng.next(), (uint64_t)T * 16 + per));
+	if (c.want_sample()) c.sample(c.curdesc());
+}
+
 // random longer targets with deeper encodings
 static void mode_targets_rand(vf::Ctx& c)
 {
@@ -568,6 +636,7 @@ int main(int argc, char** argv)
 	R.add("cuts", mode_cuts, "request streams cut at every offset, then closed");
 	R.add("mutants", mode_mutants, "mutated request streams incl. Range/Expect/Content-Length/chunked abuse, app and file server");
 	R.add("targets", mode_targets, "all request targets over {. / %2e %2E %2f %25 a} up to a character length");
+	R.add("bodies_mt", mode_bodies_mt, "several connections with large bodies on one server object at once");
 	R.add("targets_rand", mode_targets_rand, "random longer targets with deeper encodings");
 	R.add("url", mode_url, "Url(), Url::decode, parseQuery over all short strings of URL metacharacters");
 	R.add("url_rand", mode_url_rand, "random longer URL strings");
